@@ -6,9 +6,21 @@ from vlib.core import Result
 NAME = "adv"
 LEAN_MODULE = "BluetoeModel.Adv"
 DRIVER = "drv_adv"
-HARNESS_DESC = "harness/adv.cpp (real details::advertiser<> + channel maps + start/stop + white_list<4> in a mock link layer)"
+HARNESS_DESC = ("harness/adv.cpp (real details::advertiser<> + channel maps + start/stop + white_list<4> in a mock link layer); "
+                "C25 also harness/adv/adv_ll.cpp (real link_layer<> with white_list<4> on tests/test_tools/test_radio) and "
+                "harness/adv/nrf_scan.cpp (real nrf52.hpp is_valid_scan_request on emulated RADIO registers)")
 HARNESS = {
     "default": dict(src="harness/adv.cpp", repo_srcs=["bluetoe/utility/address.cpp", "bluetoe/link_layer/delta_time.cpp"]),
+    "ll": dict(src="harness/adv/adv_ll.cpp",
+               repo_srcs=["tests/test_tools/test_radio.cpp", "tests/test_tools/hexdump.cpp", "tests/test_tools/buffer_io.cpp",
+                          "tests/test_tools/address_io.cpp", "bluetoe/link_layer/channel_map.cpp",
+                          "bluetoe/link_layer/connection_details.cpp", "bluetoe/link_layer/delta_time.cpp",
+                          "bluetoe/utility/address.cpp"],
+               includes=["tests/test_tools"],
+               ldflags=["-lboost_unit_test_framework"]),
+    "nrf": dict(src="harness/adv/nrf_scan.cpp", repo_srcs=["bluetoe/utility/address.cpp", "bluetoe/link_layer/delta_time.cpp"],
+                includes=["bluetoe/bindings/nordic/include", "bluetoe/bindings/nordic/nrf52/include"],
+                abs_includes=["harness/adv/nrf_stub"], std="c++14"),
 }
 
 # configuration -> (variable map, variable interval, fixed interval ms, auto start, types)
@@ -315,9 +327,14 @@ def addr_bytes(a):
     return (a >> 1).to_bytes(6, "little")
 
 
+# LLData the real link layer accepts: AA, CRCInit, WinSize 3, WinOffset 11, interval 30 ms, latency 0,
+# timeout 720 ms, all data channels, hop 10 / SCA 5
+VALID_LLDATA = bytes.fromhex("5ab39aaf0881f6030b00180000004800ffffffff1faa")
+
+
 def connect_ind(local, init, length=34, pdu_type=5, body_len=34, tx=None, rx=None, rfu=0):
     h0 = pdu_type | rfu | (0x40 if (init & 1 if tx is None else tx) else 0) | (0x80 if (local & 1 if rx is None else rx) else 0)
-    body = addr_bytes(init) + addr_bytes(local) + bytes((7 * i + 3) & 0xff for i in range(22))
+    body = addr_bytes(init) + addr_bytes(local) + VALID_LLDATA
     body = (body + bytes(64))[:body_len]
     return bytes([h0, length & 0xff]) + body
 
@@ -398,6 +415,241 @@ def gen_c25_session(rng, cfg):
             ops.append("change %d" % rng.choice(types))
             ops.append("timeout")
     return ops
+
+
+def proj_ll(op, line):
+    """real link layer: `idle` (no advertising PDU scheduled, nothing can be received) is `rej`"""
+    if line == "idle":
+        return "rej"
+    return proj_accept(op, line)
+
+
+def expect_accept(types_selected, local, target, conn_filter, wl, pdu):
+    """the oracle of monitor_c25 for one CONNECT_IND (used by the generator to re-start advertising
+    after an accepted request; a wrong prediction shows as a disagreement, never hides one)"""
+    h0, ln, body = pdu[0], pdu[1], pdu[2:]
+    if not (len(body) == 34 and (h0 & 0x0f) == 5 and (ln & 0x3f) == 34):
+        return False
+    init = int.from_bytes(body[0:6], "little") * 2 + (1 if h0 & 0x40 else 0)
+    adva = int.from_bytes(body[6:12], "little") * 2 + (1 if h0 & 0x80 else 0)
+    if adva != local:
+        return False
+    if types_selected == 1:
+        if target is None or init != target:
+            return False
+    elif types_selected != 0:
+        return False
+    return (not conn_filter) or init in wl
+
+
+LL_MUTATIONS = ([("valid", {})]
+                + [("length-%d" % v, {"length": v}) for v in (0, 12, 33, 35, 34 + 64, 34 + 128, 255)]
+                + [("type-%d" % v, {"pdu_type": v}) for v in (0, 1, 2, 3, 4, 6, 7, 13, 15)]
+                + [("body-%d" % v, {"body_len": v}) for v in (0, 6, 12, 33)]
+                + [("adva-bit-%d" % b, {"adva_bit": b}) for b in (0, 23, 47)]
+                + [("rxadd", {"rxadd": 1}), ("txadd", {"txadd": 1})]
+                + [("inita-bit-%d" % b, {"inita_bit": b}) for b in (0, 24, 47)]
+                + [("rfu-%x" % v, {"rfu": v}) for v in (0x10, 0x20, 0x30)])
+
+
+def mutated_connect_ind(local, init, mut):
+    kw = {k: v for k, v in mut.items() if k in ("length", "pdu_type", "body_len", "rfu")}
+    loc = local
+    if "adva_bit" in mut:
+        loc = local ^ (2 << mut["adva_bit"])
+    if "inita_bit" in mut:
+        init = init ^ (2 << mut["inita_bit"])
+    if "rxadd" in mut:
+        kw["rx"] = 1 - (local & 1)
+    if "txadd" in mut:
+        kw["tx"] = 1 - (init & 1)
+    return connect_ind(loc, init, **kw)
+
+
+def ll_session(cfg, sel, local, target, conn_filter, wl, requests, rng=None):
+    """one session for the real link layer: set up, then `requests` = [(initiator, mutation)];
+    after every request the oracle expects to be accepted: connection lost, advertising restarted"""
+    auto = CFG[cfg][3]
+    types = CFG[cfg][4]
+    ops = ["reset %d" % cfg]
+    if local != DEFAULT_LOCAL:
+        ops.append("local %d" % local)
+    if 1 in types and target is not None:
+        ops.append("direct %d" % target)
+    if len(types) > 1:
+        ops.append("change %d" % sel)
+    for a in wl:
+        ops.append("wladd %d" % a)
+    ops.append("filter %d" % (1 if conn_filter else 0))
+    ops.append("llstart")
+    if not auto:
+        ops.append("start")
+    tgt = target if (target is not None and target != 1) else None
+    for init, mut in requests:
+        pdu = mutated_connect_ind(local, init, mut)
+        ops.append("recv " + pdu.hex())
+        if expect_accept(sel, local, tgt, conn_filter, set(wl), pdu):
+            ops += ["llstop", "llstart"]
+            if not auto:
+                ops.append("start")
+    return ops
+
+
+LL_TYPES = [(0, 0), (5, 1), (6, 2), (7, 3), (4, 0), (4, 1), (4, 2), (4, 3), (1, 0)]
+
+
+def enum_ll_sessions():
+    """the four advertising types (single type link layers and the multiple type advertiser) x connection
+    filter {off, on + initiator listed, on + initiator not listed, on + initiator listed with the other
+    address type} x own address type x every single field mutation of a valid CONNECT_IND"""
+    sessions = []
+    init = 2 * 0x112233445566
+    other = 2 * 0x0badc0ffee42 + 1
+    for cfg, sel in LL_TYPES:
+        for local in (DEFAULT_LOCAL, 2 * 0x665544332211):
+            for fname, conn_filter, wl in (("off", False, []), ("listed", True, [init, other]), ("not-listed", True, [other]),
+                                           ("other-type", True, [init ^ 1])):
+                if cfg == 1 and (local != DEFAULT_LOCAL or fname in ("not-listed", "other-type")):
+                    continue
+                target = init if sel == 1 else None
+                reqs = [(init, m) for _, m in LL_MUTATIONS]
+                sessions.append(ll_session(cfg, sel, local, target, conn_filter, wl, reqs))
+        # directed advertising: wrong / missing target
+        if sel == 1:
+            sessions.append(ll_session(cfg, sel, DEFAULT_LOCAL, other, False, [], [(init, {}), (other, {}), (other ^ 1, {}), (other, {"txadd": 1})]))
+            sessions.append(ll_session(cfg, sel, DEFAULT_LOCAL, None, False, [], [(init, {}), (0, {})]))
+    return sessions
+
+
+def gen_ll_session(rng, cfg, sel):
+    universe = [rng.randrange(2, 1 << 49) for _ in range(3)]
+    universe.append(universe[0] ^ 1)
+    universe.append(universe[1] ^ 2)
+    local = rng.choice([DEFAULT_LOCAL, rng.randrange(2, 1 << 49), rng.randrange(2, 1 << 49) | 1])
+    target = rng.choice(universe + [None]) if sel == 1 else None
+    wl = rng.sample(universe, rng.randrange(0, 5))
+    reqs = []
+    for _ in range(rng.randrange(5, 14)):
+        init = rng.choice(universe + ([target] if target is not None else []))
+        if rng.random() < 0.4:
+            reqs.append((init, {}))
+        else:
+            name, mut = rng.choice(LL_MUTATIONS)
+            mut = dict(mut)
+            for k in ("adva_bit", "inita_bit"):
+                if k in mut:
+                    mut[k] = rng.randrange(48)
+            reqs.append((init, mut))
+    return ll_session(cfg, sel, local, target, rng.random() < 0.6, wl, reqs)
+
+
+# ---- scan requests on the real nRF52 radio ISR (harness/adv/nrf_scan.cpp) ---------------------------------
+def proj_nrf(op, line):
+    """only the ISR's verdict and the white list results are compared"""
+    return line if op.split()[0] in ("nrfscan", "wladd", "wlremove", "reset") else ""
+
+
+SCAN_MUTATIONS = ([("valid", {})]
+                  + [("length-%d" % v, {"length": v}) for v in (0, 11, 13, 34, 12 + 64, 12 + 128)]
+                  + [("type-%d" % v, {"pdu_type": v}) for v in (0, 1, 2, 4, 5, 6, 13)]
+                  + [("body-%d" % v, {"body_len": v}) for v in (0, 6, 11)]
+                  + [("adva-bit-%d" % b, {"adva_bit": b}) for b in (0, 23, 47)]
+                  + [("rxadd", {"rxadd": 1}), ("txadd", {"txadd": 1})]
+                  + [("scana-bit-%d" % b, {"scana_bit": b}) for b in (0, 24, 47)])
+
+
+def mutated_scan_req(local, scanner, mut):
+    kw = {k: v for k, v in mut.items() if k in ("length", "pdu_type", "body_len")}
+    loc = local
+    if "adva_bit" in mut:
+        loc = local ^ (2 << mut["adva_bit"])
+    if "scana_bit" in mut:
+        scanner = scanner ^ (2 << mut["scana_bit"])
+    if "rxadd" in mut:
+        kw["rx"] = 1 - (local & 1)
+    if "txadd" in mut:
+        kw["tx"] = 1 - (scanner & 1)
+    return scan_req(loc, scanner, **kw)
+
+
+def nrf_session(cfg, local, scan_filter, wl, requests):
+    ops = ["reset %d" % cfg]
+    if local != DEFAULT_LOCAL:
+        ops.append("local %d" % local)
+    if cfg == 5:
+        ops.append("direct %d" % (2 * 0x0102030405))
+    for a in wl:
+        ops.append("wladd %d" % a)
+    ops.append("scanfilter %d" % (1 if scan_filter else 0))
+    ops.append("llstart")
+    for scanner, mut in requests:
+        ops.append("nrfscan " + mutated_scan_req(local, scanner, mut).hex())
+    return ops
+
+
+def enum_nrf_sessions():
+    """advertising types x own address type x scanner address type x scan filter {off, scanner listed, not
+    listed, listed with the other address type} x every single field mutation of a valid SCAN_REQ"""
+    sessions = []
+    other = 2 * 0x0badc0ffee42 + 1
+    for cfg in (0, 6, 7, 5):
+        for local in (DEFAULT_LOCAL, 2 * 0x665544332211):
+            for scanner in (2 * 0xaaaaaaaaaaaa, 2 * 0x1122aabbccdd + 1):
+                for scan_filter, wl in ((False, []), (True, [scanner, other]), (True, [other]), (True, [scanner ^ 1])):
+                    if cfg in (7, 5) and (scan_filter or local != DEFAULT_LOCAL):
+                        continue
+                    sessions.append(nrf_session(cfg, local, scan_filter, wl, [(scanner, m) for _, m in SCAN_MUTATIONS]))
+    return sessions
+
+
+def gen_nrf_session(rng, cfg):
+    universe = [rng.randrange(2, 1 << 49) for _ in range(3)]
+    universe.append(universe[0] ^ 1)
+    universe.append(universe[1] ^ 2)
+    local = rng.choice([DEFAULT_LOCAL, rng.randrange(2, 1 << 49), rng.randrange(2, 1 << 49) | 1])
+    reqs = []
+    for _ in range(rng.randrange(5, 14)):
+        if rng.random() < 0.5:
+            reqs.append((rng.choice(universe), {}))
+        else:
+            mut = dict(rng.choice(SCAN_MUTATIONS)[1])
+            for k in ("adva_bit", "scana_bit"):
+                if k in mut:
+                    mut[k] = rng.randrange(48)
+            reqs.append((rng.choice(universe), mut))
+    return nrf_session(cfg, local, rng.random() < 0.7, rng.sample(universe, rng.randrange(0, 5)), reqs)
+
+
+def monitor_nrf(ops, outs):
+    """independent oracle for the radio's answer, on octets and Python sets"""
+    hits = []
+    cfg = int(ops[0].split()[1])
+    local, wl, scan_filter = DEFAULT_LOCAL, set(), False
+    for k, (op, out) in enumerate(zip(ops, outs)):
+        w = op.split()
+        if w[0] == "local":
+            local = int(w[1]) % (1 << 49)
+        elif w[0] == "wladd" and out == "1":
+            wl.add(int(w[1]) % (1 << 49))
+        elif w[0] == "wlremove":
+            wl.discard(int(w[1]) % (1 << 49))
+        elif w[0] == "scanfilter":
+            scan_filter = w[1] == "1"
+        elif w[0] == "nrfscan":
+            pdu = (bytes.fromhex(w[1]) + bytes(36))[:36]
+            h0, ln, body = pdu[0], pdu[1], pdu[2:]
+            scanner = int.from_bytes(body[0:6], "little") * 2 + (1 if h0 & 0x40 else 0)
+            adva = int.from_bytes(body[6:12], "little") * 2 + (1 if h0 & 0x80 else 0)
+            proper = (h0 & 0x0f) == 3 and ln == 12 and adva == local
+            exp = cfg in (0, 6) and proper and ((not scan_filter) or scanner in wl)
+            if out not in ("n=0", "n=1"):
+                hits.append(("C25:nrf:unexpected-output", "op %d `%s`: %s" % (k, op, out), k))
+            elif out == "n=1" and not exp:
+                why = "not addressed to the device" if not proper else ("scanner not in the scan filter" if cfg in (0, 6) else "advertising type without scan response")
+                hits.append(("C25:nrf:scan-request-answered-wrongly", "op %d `%s`: answered although %s" % (k, op, why), k))
+            elif out == "n=0" and exp:
+                hits.append(("C25:nrf:scan-request-not-answered", "op %d `%s`: properly addressed request of a permitted scanner not answered" % (k, op), k))
+    return hits
 
 
 def monitor_c25(ops, outs):
@@ -521,10 +773,81 @@ def run_c25(ctx, replay_path=None):
                 o = ctx.run_impl([cand])[0]
                 return any(h[0] == key for h in monitor_c25(cand, o["out"]))
             res.failures.append({"key": key, "what": what, "ops": ctx.shrink(ops[:k + 1], fails, budget=60)})
-    res.samples = [" ; ".join(s[:10])[:400] for s in sessions[nc:nc + 2]]
-    res.extra["scan_request_half"] = ("only the scan filter of white_list.hpp is tied to the code; advertising_type_base::is_valid_scan_request "
-                                      "is dead code that does not compile when instantiated, the nRF52 ISR predicate "
-                                      "(nrf52.hpp::is_valid_scan_request) is not built on the host: both are modelled only")
+    # ---- the same decision on the REAL link_layer<> driven on tests/test_tools/test_radio --------------
+    ll_sessions = enum_ll_sessions()
+    for i in range(600 if ctx.thorough else 60):
+        cfg, sel = LL_TYPES[i % len(LL_TYPES)]
+        ll_sessions.append(gen_ll_session(ctx.rng, cfg, sel))
+    impl_ll, model_ll, dis_ll = ctx.run_pair(ll_sessions, proj_ll, key="ll")
+    for d in dis_ll:
+        ops = ll_sessions[d["session"]]
+        if len(res.disagreements) < 2:
+            ops = ctx.shrink_disagreement(ops, proj_ll, key="ll")
+        res.disagreements.append(dict(d, ops=ops, harness="ll"))
+    res.exhaustive = True
+    res.extra["exhaustive_small_scope"] = ("real link_layer<> on test_radio: 4 advertising types (single type link layers + multiple type "
+                                           "advertiser) x connection filter {off, listed, not listed, listed with other address type} x "
+                                           "own address type x %d single field mutations of a valid CONNECT_IND" % len(LL_MUTATIONS))
+    for ops, r in zip(ll_sessions, impl_ll):
+        outs = ["rej -" if o == "idle" else o for o in r["out"]]
+        res.sessions += 1
+        res.evaluations += len(outs)
+        res.count("ll:cfg:%s" % ops[0].split()[1])
+        acc = sum(1 for o in outs if o.startswith("acc"))
+        rej = sum(1 for o in outs if o.startswith("rej"))
+        res.count("ll:connect:accepted", acc)
+        res.count("ll:connect:rejected", rej)
+        res.count("ll:idle", sum(1 for o in r["out"] if o == "idle"))
+        if acc and rej:
+            res.distinct.add(hash(tuple(ops)))
+        if r["crash"]:
+            res.failures.append({"key": "C25:ll:crash:" + r["crash"].split(" @")[0], "what": r["crash"], "ops": ops[:len(outs) + 1]})
+            continue
+        for key, what, k in monitor_c25(ops, outs):
+            res.count("failure:" + key)
+            if key in seen:
+                continue
+            seen.add(key)
+            res.failures.append({"key": key, "what": "real link_layer<>: " + what, "ops": ops[:k + 1], "harness": "ll"})
+    # ---- scan requests: the REAL nRF52 radio ISR (is_valid_scan_request) on the host -------------------
+    nrf_sessions = enum_nrf_sessions()
+    for i in range(400 if ctx.thorough else 60):
+        nrf_sessions.append(gen_nrf_session(ctx.rng, [0, 6, 6, 0, 7, 5][i % 6]))
+    impl_nrf, model_nrf, dis_nrf = ctx.run_pair(nrf_sessions, proj_nrf, key="nrf")
+    for d in dis_nrf:
+        ops = nrf_sessions[d["session"]]
+        if len(res.disagreements) < 2:
+            ops = ctx.shrink_disagreement(ops, proj_nrf, key="nrf")
+        res.disagreements.append(dict(d, ops=ops, harness="nrf"))
+    for ops, r in zip(nrf_sessions, impl_nrf):
+        outs = r["out"]
+        res.sessions += 1
+        res.evaluations += len(outs)
+        res.count("nrf:cfg:%s" % ops[0].split()[1])
+        a1 = sum(1 for o in outs if o == "n=1")
+        a0 = sum(1 for o in outs if o == "n=0")
+        res.count("nrf:scan:answered", a1)
+        res.count("nrf:scan:not-answered", a0)
+        if a1 and a0:
+            res.distinct.add(hash(tuple(ops)))
+        if r["crash"]:
+            res.failures.append({"key": "C25:nrf:crash:" + r["crash"].split(" @")[0], "what": r["crash"], "ops": ops[:len(outs) + 1]})
+            continue
+        for key, what, k in monitor_nrf(ops, outs):
+            res.count("failure:" + key)
+            if key in seen:
+                continue
+            seen.add(key)
+
+            def fails_nrf(cand, key=key):
+                o = ctx.run_impl([cand], key="nrf")[0]
+                return any(h[0] == key for h in monitor_nrf(cand, o["out"]))
+            res.failures.append({"key": key, "what": "nRF52 radio ISR: " + what, "ops": ctx.shrink(ops[:k + 1], fails_nrf, budget=40), "harness": "nrf"})
+    res.samples = [" ; ".join(s[:10])[:400] for s in sessions[nc:nc + 2]] + [" ; ".join(ll_sessions[0][:8])[:400], " ; ".join(nrf_sessions[1][:8])[:400]]
+    res.extra["scan_request_half"] = ("the radio answers scan requests: the real nRF52 ISR (nrf52.hpp schedule_advertisment / radio_interrupt_handler / "
+                                      "is_valid_scan_request, Hardware template parameter replaced by a recording stub) is driven with the PDUs built by "
+                                      "the real advertiser and the real white_list<4>; advertising_type_base::is_valid_scan_request of advertising.hpp is "
+                                      "dead code that does not compile when instantiated (modelled only: validScanBase)")
     return res
 
 
@@ -532,15 +855,15 @@ PROPS = {
     "C24": dict(
         theorems=["BluetoeModel.Adv.inv_reachable", "BluetoeModel.Adv.timeout_channel_successor",
                   "BluetoeModel.Adv.cycle_visits_enabled_ascending_once", "BluetoeModel.Adv.enabledIdxs_spec",
-                  "BluetoeModel.Adv.map_change_selects_lowest", "BluetoeModel.Adv.start_on_current_partial",
+                  "BluetoeModel.Adv.map_change_selects_lowest", "BluetoeModel.Adv.start_on_lowest",
                   "BluetoeModel.Adv.count_bounds_pdus", "BluetoeModel.Adv.startn_budget", "BluetoeModel.Adv.stop_silences"],
-        witnesses=["BluetoeModel.Adv.start_on_lowest_witness"],
+        witnesses=[],
         run=run_c24,
         harness_keys=["default"],
         level="proof",
         technique="Lean 4 invariant + refinement-to-successor proof over all histories (complete decide tables for the 8x3 bit-level domain) + exhaustive/differential correspondence with the real advertiser classes",
-        level_text="inv_reachable + timeout_channel_successor: in every reachable state of every configuration the PDU scheduled by handle_adv_timeout goes to the cyclic successor among the enabled channels, delay 0 inside an event and interval + 0..10 ms between events; cycle_visits_enabled_ascending_once: that successor visits each enabled channel exactly once in ascending order; count_bounds_pdus / startn_budget / stop_silences: start/stop/count bound the PDUs. Model = code with fix adv-01.",
-        level_note="Known finding (start_on_lowest_witness): a restart resumes on the channel of the last PDU. Map changes while advertising are documented as unsupported and are compared model<->code only.",
+        level_text="inv_reachable + timeout_channel_successor: in every reachable state of every configuration the PDU scheduled by handle_adv_timeout goes to the cyclic successor among the enabled channels, delay 0 inside an event and interval + 0..10 ms between events; cycle_visits_enabled_ascending_once: that successor visits each enabled channel exactly once in ascending order; start_on_lowest: every (re)start (handle_start_advertising, start_advertising, directed_advertising_address) transmits without delay on the lowest enabled channel, so the first event after a restart is complete as well; count_bounds_pdus / startn_budget / stop_silences: start/stop/count bound the PDUs. Model = code with fixes adv-01 and adv-02.",
+        level_note="Map changes while advertising are documented as unsupported and are compared model<->code only.",
         design_ref="§5 C24",
         assumptions=["the link layer calls handle_adv_timeout / handle_adv_receive only for a scheduled advertisement",
                      "channel map not empty when advertising (documented requirement)"],
@@ -548,18 +871,19 @@ PROPS = {
     "C25": dict(
         theorems=["BluetoeModel.Adv.connect_accepted_iff", "BluetoeModel.Adv.validConnectBase_iff",
                   "BluetoeModel.Adv.nonconnectable_never_accepts", "BluetoeModel.Adv.scan_valid_iff",
+                  "BluetoeModel.Adv.nrf_scan_answered_iff", "BluetoeModel.Adv.nrf_answers_only_if",
                   "BluetoeModel.Adv.nrf_scan_partial"],
-        witnesses=["BluetoeModel.Adv.nrf_scan_filter_witness"],
+        witnesses=[],
         imports=["BluetoeModel.Adv.PropsC25"],
         run=run_c25,
-        harness_keys=["default"],
-        level="partial",
-        technique="Lean 4 exact characterisation (iff) of handle_adv_receive for all PDUs/states + differential correspondence on the real advertiser + white list; scan half modelled only",
-        level_text="connect_accepted_iff: a connection is entered iff the PDU is a 2+34 octet CONNECT_IND with AdvA/RxAdd = own address/type, the advertising type is connectable (directed: InitA/TxAdd = target, target set) and the initiator passes the connection filter.",
-        level_note="partial: the scan request half lives in the radio (nRF52 ISR, modelled only: nrf_scan_filter_witness shows the wrong address type in the scan filter lookup); advertising.hpp's own is_valid_scan_request does not compile when instantiated; the real link_layer<> on test_radio was not driven.",
+        harness_keys=["default", "ll", "nrf"],
+        level="proof",
+        technique="Lean 4 exact characterisations (iff) of handle_adv_receive and of the nRF52 radio's is_valid_scan_request for all PDUs/states + differential correspondence on three harnesses: real advertiser + white list in a mock link layer, the real link_layer<> on test_radio, the real nRF52 radio ISR on the host",
+        level_text="connect_accepted_iff: a connection is entered iff the PDU is a 2+34 octet CONNECT_IND with AdvA/RxAdd = own address/type, the advertising type is connectable (directed: InitA/TxAdd = target, target set) and the initiator passes the connection filter. nrf_scan_answered_iff / nrf_answers_only_if: the radio answers iff SCAN_REQ with length octet 12, AdvA/RxAdd = own address/type, advertising type with scan response, and the scanner (ScanA, TxAdd) passes the scan filter. Model = code with fix adv-03.",
+        level_note="scan half: the radio answers scan requests; tied to the nRF52 binding (nrf52.hpp; nrf51.cpp has the same text and the same fix but is not executed). advertising.hpp's own is_valid_scan_request is dead code that does not compile when instantiated. The link layer's checks of the connection parameters behind the accept decision belong to C22 (valid parameters are used here).",
         design_ref="§5 C25",
-        assumptions=["connect half: handle_adv_receive of advertising.hpp + white_list<4> driven through a mock link layer (the real "
-                     "link_layer<> calls exactly this function in adv_received)",
-                     "scan half: the radio answers scan requests; the nRF52 ISR predicate is modelled only"],
+        assumptions=["nRF52 ISR: hardware access (template parameter Hardware) replaced by a recording stub: CRC ok, no address resolving, "
+                     "PDU delivered in the zeroed 36 octet receive buffer",
+                     "test_radio (copy_air_to_memory) delivers CONNECT_INDs to the real link_layer<>"],
     ),
 }
